@@ -72,7 +72,7 @@ class Program:
         for b in self.cfg.get("burst", []) if isinstance(self.cfg.get("burst"), list) else []:
             L.append("cfg burst=%d" % b)
         for q, d in sorted(self.queues.items()):
-            L.append("q %d %d %d %d %d %d %d %d" % (q, d["kind"], d["target"], d["flags"], d["width"], d["qos"], d["relpri"], d["chain"]))
+            L.append("q %d %d %d %d %d %d %d %d" % (q, d["kind"], d.get("itarget", d["target"]), d["flags"], d["width"], d["qos"], d["relpri"], d["chain"]))
         for g in self.groups:
             L.append("g %d" % g)
         for s, v in sorted(self.sems.items()):
@@ -120,6 +120,10 @@ class Program:
                 P.next_op = max(P.next_op, o.id + 1)
             else:
                 P.extra.append(line)
+        for o in P.order:
+            if o.kind == "settarget" and o.a in P.queues:
+                P.queues[o.a].setdefault("itarget", P.queues[o.a]["target"])
+                P.queues[o.a]["target"] = o.b          # the queue is retargeted before activation: its items only ever see the new hierarchy
         for o in P.order:
             c, depth = o.ctx, 0
             while c >= 1000 and (c - 1000) in P.ops:
